@@ -113,6 +113,46 @@ theorem no_change_before_both_spiked (c : DCfg) (r : Red) (d : ℝ) (bt : List (
     simp only [e, part]; simp
 
 
+/-! ## episodes: `trainer.clear()` in the middle of a run
+
+A cleared `EventReducer` is initial again: its next `forward` returns `where(event, 0, NaN)`, i.e. the
+fold restarts — the run after a clear at step `t0` IS the model started at step 0 on the trains
+re-timed from the clear (C07's `clear_then_run_eq_fresh_run`; checked on the real trainers, for both
+`keepshape` values, by the episode stream of `harness/corr/c18.py`). -/
+
+/-- the spike trains of a weight's receptive field as seen from a clear at step `t0` -/
+def retime (t0 : ℕ) (bt : List (List Syn)) : List (List Syn) :=
+  bt.map fun f => f.map fun s => ⟨fun u => s.pre (t0 + u), fun u => s.post (t0 + u)⟩
+
+/-- **No change after a clear until both sides have spiked again**: `t` steps after a clear at `t0`,
+if in every receptive-field element the pre or the post neuron has not spiked in `[t0, t0 + t]`,
+every part handed to the updater is zero (or `None`) — whatever happened before `t0`. -/
+theorem no_change_after_clear (c : DCfg) (r : Red) (d : ℝ) (bt : List (List Syn)) (t0 t : ℕ)
+    (kpost kpre : ℝ → ℝ)
+    (h : ∀ f ∈ bt, ∀ s ∈ f, (∀ j, t0 ≤ j → j ≤ t0 + t → s.pre j = false) ∨
+                            (∀ j, t0 ≤ j → j ≤ t0 + t → s.post j = false)) :
+    (part (daStep c r d (retime t0 bt) t).1 = 0 ∧ part (daStep c r d (retime t0 bt) t).2 = 0) ∧
+    (part (dadStep c r d (retime t0 bt) t).1 = 0 ∧ part (dadStep c r d (retime t0 bt) t).2 = 0) ∧
+    (part (dakStep c.dt r kpost kpre d (retime t0 bt) t).1 = 0 ∧
+     part (dakStep c.dt r kpost kpre d (retime t0 bt) t).2 = 0) := by
+  apply no_change_before_both_spiked
+  intro f hf s hs
+  simp only [retime, List.mem_map] at hf
+  obtain ⟨f0, hf0, rfl⟩ := hf
+  simp only [List.mem_map] at hs
+  obtain ⟨s0, hs0, rfl⟩ := hs
+  rcases h f0 hf0 s0 hs0 with hp | hp
+  · left; rw [lastSpike_none_iff]; intro j hj; exact hp (t0 + j) (by omega) (by omega)
+  · right; rw [lastSpike_none_iff]; intro j hj; exact hp (t0 + j) (by omega) (by omega)
+
+/-- after a clear, `t_delta` is computed from the most recent spikes SINCE the clear -/
+theorem tdelta_after_clear (dt : ℝ) (s : Syn) (d : ℝ) (t0 t : ℕ) :
+    tDelta dt ⟨fun u => s.pre (t0 + u), fun u => s.post (t0 + u)⟩ d t =
+      match lastSpike (fun u => s.pre (t0 + u)) t, lastSpike (fun u => s.post (t0 + u)) t with
+      | some a, some b => some (((b : ℝ) - (a : ℝ)) * dt - d)
+      | _, _ => none :=
+  tdelta_eq dt _ d t
+
 /-! ## the causal branch -/
 
 theorem daPosTerm_eq (c : DCfg) (x : ℝ) :
